@@ -51,7 +51,12 @@ Record tcase := TCase {
   c_mem : memarg;
   c_zero : Qc;
   c_limit : nat;                  (* the consumer takes at most this many items *)
+  c_silent : list nat;            (* coefficient sources whose reads are not logged *)
   c_obs : tobs }.
+
+(* the model's trace as a harness that cannot see the reads of the silent sources sees it *)
+Definition hide (silent : list nat) (tr : list event) : list event :=
+  filter (fun ev => match ev with EvRead i _ => negb (smem i silent) | _ => true end) tr.
 
 Definition berr_name (e : berr) : string :=
   match e with BZeroDiv => "ZeroDivisionError" | BEmptyDen => "ValueError" end.
@@ -75,7 +80,7 @@ Definition corr_tv (c : tcase) : bool :=
   match run_case (sources_of (c_srcs c)) (c_expr c) (c_mem c) (c_zero c) (c_limit c), c_obs c with
   | RBuild e, OBuild n => String.eqb n (berr_name e)
   | RCall e, OCall n => String.eqb n (exn_name e)
-  | RRun g tr, ORun (TCaptured g') tr' => tgen_eqb g' g && list_eqb event_eqb tr' tr
+  | RRun g tr, ORun (TCaptured g') tr' => tgen_eqb g' g && list_eqb event_eqb tr' (hide (c_silent c) tr)
   | _, _ => false
   end.
 
@@ -85,10 +90,22 @@ Definition zero_gain (F : @gfilt scoef) : bool :=
   let a0 := t_getitem frozen_alg (t_den F) 0 in
   is_nil (sc_deps a0) && oq_eqb (sc_val a0) (Some 0%Qc).
 
+(* the text speaks of filters of which some coefficient is a Stream: an expression without
+   any Stream literal is a constant-coefficient filter (property C04) and nothing is demanded *)
+Definition coef_is_stream (c : coef) : bool := match c with CStr _ => true | CNum _ => false end.
+Fixpoint mentions_stream (e : fexp) : bool :=
+  match e with
+  | FBase n d => existsb (fun kv => coef_is_stream (snd kv)) (n ++ d)
+  | FAdd a b | FSub a b | FMul a b => mentions_stream a || mentions_stream b
+  | FNeg a => mentions_stream a
+  | FMulR a c | FMulL c a | FAddR a c | FAddL c a | FDivR a c => mentions_stream a || coef_is_stream c
+  end.
+
 Definition holds_tv (c : tcase) : bool :=
   let S := sources_of (c_srcs c) in
+  negb (mentions_stream (c_expr c)) ||
   match c_obs c with
-  | ORun _ tr => spec_run S (c_expr c) (c_mem c) (c_zero c) (c_limit c) tr
+  | ORun _ tr => spec_run S (c_expr c) (c_mem c) (c_zero c) (c_silent c) (c_limit c) tr
   | OBuild _ => match frozen_at S (c_expr c) 0 with BErr _ => true | BOk _ _ => false end
   | OCall _ => match frozen_at S (c_expr c) 0 with
                | BErr _ => false
@@ -105,14 +122,14 @@ Inductive stepobs :=
 | SOOther.
 
 Record scase := SCase {
-  s_expr : fexp; s_srcs : list srcdata; s_zero : Qc; s_steps : list sstep; s_obs : list stepobs }.
+  s_expr : fexp; s_srcs : list srcdata; s_zero : Qc; s_silent : list nat; s_steps : list sstep; s_obs : list stepobs }.
 
 Definition zbl_eqb (a b : list (Z * bool)) : bool := list_eqb zb_eqb a b.
-Definition step_agrees (o : stepobs) (m : sobs) : bool :=
+Definition step_agrees (silent : list nat) (o : stepobs) (m : sobs) : bool :=
   match o, m with
   | SOErr n, SRes (RBuild e) => String.eqb n (berr_name e)
   | SOErr n, SRes (RCall e) => String.eqb n (exn_name e)
-  | SORun (TCaptured g') tr', SRes (RRun g tr) => tgen_eqb g' g && list_eqb event_eqb tr' tr
+  | SORun (TCaptured g') tr', SRes (RRun g tr) => tgen_eqb g' g && list_eqb event_eqb tr' (hide silent tr)
   | SOSeen n d, SSeen n' d' => zbl_eqb n n' && zbl_eqb d d'
   | _, _ => false
   end.
@@ -126,7 +143,7 @@ Fixpoint all2 {A B} (f : A -> B -> bool) (a : list A) (b : list B) : bool :=
 
 Definition corr_ses (c : scase) : bool :=
   match run_session (sources_of (s_srcs c)) (s_expr c) (s_steps c) (s_zero c) with
-  | Some l => all2 step_agrees (s_obs c) l
+  | Some l => all2 (step_agrees (s_silent c)) (s_obs c) l
   | None => false
   end.
 
@@ -144,7 +161,7 @@ Definition step_expr (e : fexp) (st : sstep) : fexp :=
   end.
 Definition step_fuel (st : sstep) : nat := match st with SCall f => f | SShiftCall _ f => f | SLook => 0%nat end.
 
-Fixpoint holds_steps (S : sources) (e : fexp) (zero : Qc) (steps : list sstep) (obs : list stepobs)
+Fixpoint holds_steps (S : sources) (e : fexp) (zero : Qc) (silent : list nat) (steps : list sstep) (obs : list stepobs)
                      (n : option nat) : bool :=
   match steps, obs with
   | [], [] => true
@@ -152,7 +169,7 @@ Fixpoint holds_steps (S : sources) (e : fexp) (zero : Qc) (steps : list sstep) (
       match frozen_at S e 0 with
       | BOk F _ => same_shape nu (shape_of (t_num F)) && same_shape de (shape_of (t_den F))
       | BErr _ => true
-      end && holds_steps S e zero sr orr n
+      end && holds_steps S e zero silent sr orr n
   | st :: sr, o :: orr =>
       match n with
       | None => true                               (* the sources are no longer in step: no claim *)
@@ -160,13 +177,13 @@ Fixpoint holds_steps (S : sources) (e : fexp) (zero : Qc) (steps : list sstep) (
           let e' := step_expr e st in
           match o with
           | SORun _ tr =>
-              spec_run_at S e' MNone zero (step_fuel st) n0 tr &&
-              holds_steps S e zero sr orr (if Nat.eqb (count_y tr) (step_fuel st) then Some (n0 + step_fuel st)%nat else None)
+              spec_run_at S e' MNone zero silent (step_fuel st) n0 tr &&
+              holds_steps S e zero silent sr orr (if Nat.eqb (count_y tr) (step_fuel st) then Some (n0 + step_fuel st)%nat else None)
           | SOErr _ =>
               match frozen_at S e' n0 with
               | BErr _ => true
               | BOk F _ => noncausal F || zero_gain F
-              end && holds_steps S e zero sr orr n
+              end && holds_steps S e zero silent sr orr n
           | _ => false
           end
       end
@@ -174,4 +191,5 @@ Fixpoint holds_steps (S : sources) (e : fexp) (zero : Qc) (steps : list sstep) (
   end.
 
 Definition holds_ses (c : scase) : bool :=
-  holds_steps (sources_of (s_srcs c)) (s_expr c) (s_zero c) (s_steps c) (s_obs c) (Some 0%nat).
+  negb (mentions_stream (s_expr c)) ||
+  holds_steps (sources_of (s_srcs c)) (s_expr c) (s_zero c) (s_silent c) (s_steps c) (s_obs c) (Some 0%nat).
